@@ -5,15 +5,88 @@ from oblib import ob
 BOUNDS = {"quick": "", "thorough": ""}
 ASSUMPTIONS = []
 
+CW = ["accepted", "flushed-inside-value", "top-level-done"]
+
+
+def wr(L, tag, prog, c, sl, rl, alpha, bbuf=False, ws=0, nonl=False, ptr=False, covers=CW, **kw):
+    L.append(ob("%s/%s/cap=%d/str=%d/raw=%d/alpha=%d/ws=%d/nonl=%d/ptr=%d" % ("bbufW" if bbuf else "wr", prog, c, sl, rl, alpha, ws, nonl, ptr),
+                "jsontext", "VerifC07Wr", [prog, c, sl, rl, alpha, bbuf, ws, nonl, ptr], covers=covers, **kw))
+
+
+def short(L, prog, c, sl, rl, alpha, nf, maxat, ws=0, nonl=False, ptr=False, covers=("fault-seen", "recovered", "partial-write-retained"), **kw):
+    L.append(ob("short/%s/cap=%d/str=%d/raw=%d/alpha=%d/faults=%d/at<=%d/ws=%d/nonl=%d/ptr=%d" % (prog, c, sl, rl, alpha, nf, maxat, ws, nonl, ptr),
+                "jsontext", "VerifC07Short", [prog, c, sl, rl, alpha, nf, maxat, ws, nonl, ptr], covers=list(covers), **kw))
+
+
+def unwrite(L, pre, k, c, nl, ws=0, nsoff=True, sym=False, ptr=False, probe=False, bbuf=False, **kw):
+    cov = ["retracted", "kept"] + (["probe-duplicate", "probe-accepted"] if probe and not nsoff else [])
+    L.append(ob("unwrite/pre=%d/k=%d/cap=%d/name=%d/ws=%d/nsoff=%d/sym=%d/ptr=%d/probe=%d/bbuf=%d" % (pre, k, c, nl, ws, nsoff, sym, ptr, probe, bbuf),
+                "jsontext", "VerifC07Unwrite", [pre, k, c, nl, ws, nsoff, sym, ptr, probe, bbuf], covers=cov, **kw))
+
+
+def unwname(L, n, c, nl, ws=0, nsoff=False, ptr=False, **kw):
+    cov = ["all-written"] + ([] if nsoff else ["duplicate-key"])
+    L.append(ob("unwname/n=%d/cap=%d/name=%d/ws=%d/nsoff=%d/ptr=%d" % (n, c, nl, ws, nsoff, ptr),
+                "jsontext", "VerifC07UnwriteName", [n, c, nl, ws, nsoff, ptr], covers=cov, **kw))
+
 
 def obligations(tier):
     q = tier == "quick"
     L = []
-    L.append(ob("wr/t0", "jsontext", "VerifC07Wr", ["[s]", 4, 1, 0, 0, False, 0, False, False], covers=["accepted", "top-level-done"], max_paths=20000))
-    L.append(ob("short/t0", "jsontext", "VerifC07Short", ["[ss{as}]", 4, 1, 0, 0, 1, 4, 0, False, False], covers=["fault-seen", "recovered"], max_paths=20000))
-    L.append(ob("bbuf/t0", "jsontext", "VerifC07Wr", ["[ss{as}]", 4, 2, 0, 0, True, 0, False, False], covers=["accepted", "flushed-inside-value", "top-level-done"], max_paths=20000))
-    L.append(ob("unwrite/t0", "jsontext", "VerifC07Unwrite", [0, 2, 4, 1, 0, True, False, False, False], covers=["retracted", "kept"], max_paths=20000))
-    L.append(ob("unwname/t0", "jsontext", "VerifC07UnwriteName", [2, 4, 1, 0, False, False], covers=["all-written"], max_paths=20000))
+    SEQ = ["accepted", "rejected"]
+    for bb in (False, True):
+        wr(L, "t", "[ss{as}]", 4, 1, 0, 1, bb)
+        wr(L, "t", "[ss{as}]", 8, 3, 0, 3, bb)
+        wr(L, "t", "[s{as}]", 16, 5, 0, 3, bb)
+        wr(L, "t", "[s{as}]", 8, 2, 0, 1, bb, ws=1)
+        wr(L, "t", "{a{bs}}", 4, 2, 0, 0, bb, nonl=True, ptr=True)
+        wr(L, "t", "{a7??", 4, 1, 2, 0, bb, covers=SEQ + ["flushed-inside-value"])
+        if not bb:
+            wr(L, "t", "??", 4, 1, 2, 0, bb, covers=SEQ + ["top-level-done"])
+        if q:
+            continue
+        for c, prog in ((4, "[ss{as}]"), (8, "[ss{as}]"), (16, "[s{as}s]")):
+            for sl in range(0, 7):
+                wr(L, "t", prog, c, sl, 0, 3, bb, ptr=(sl % 2 == 1), ws=(1 if sl == 4 else 0))
+        wr(L, "t", "[ss{as}]", 4, 2, 0, 1, bb)
+        wr(L, "t", "[{ss}]n", 8, 2, 0, 1, bb, ws=2, ptr=True)
+        wr(L, "t", "n[s]", 4, 2, 0, 0, bb)
+        wr(L, "t", "[v{av}]", 8, 0, 3, 0, bb)
+        wr(L, "t", "???", 4, 1, 2, 0, bb, covers=SEQ + ["top-level-done"])
+        wr(L, "t", "{a7??", 4, 1, 3, 0, bb, covers=SEQ + ["flushed-inside-value"])
+        wr(L, "t", "[{a??", 8, 1, 3, 0, bb, covers=SEQ)
+        wr(L, "t", "[7???", 4, 1, 1, 0, bb, covers=SEQ + ["flushed-inside-value"], ptr=True)
+        wr(L, "t", "{a[??", 16, 6, 4, 3, bb, covers=SEQ)
+    short(L, "[s{as}]", 4, 1, 0, 1, 1, 5)
+    short(L, "{as}n", 4, 1, 0, 1, 2, 3)
+    short(L, "n[s]", 8, 3, 0, 3, 1, 2, ptr=True)
+    short(L, "{as}", 8, 2, 0, 1, 1, 1, ws=1)
+    short(L, "[7?", 4, 1, 2, 0, 1, 2, covers=("fault-seen", "recovered"))
+    if not q:
+        short(L, "[s{as}]", 4, 1, 0, 1, 2, 5)
+        short(L, "[s{as}]", 8, 3, 0, 3, 2, 4, nonl=True, ptr=True)
+        short(L, "[s{as}s]", 16, 4, 0, 3, 2, 3, ws=1)
+        short(L, "[7??", 4, 1, 2, 0, 1, 3)
+        short(L, "{a7??", 4, 1, 2, 0, 1, 3, ptr=True)
+        short(L, "n??", 8, 2, 3, 1, 2, 3)
+    for c in (4, 8, 16):
+        unwrite(L, 0, 2, c, 1)
+        unwrite(L, 1, 2, c, 2, nsoff=False, probe=True)
+        unwrite(L, 2, 2, c, 1, ws=1, ptr=True)
+        if not q:
+            unwrite(L, 0, 3, c, 1)
+            unwrite(L, 1, 3, c, 1, nsoff=False, probe=True, ws=2)
+            unwrite(L, 2, 3, c, 2, ws=1, ptr=True, bbuf=True)
+            unwrite(L, 1, 2, c, 1, sym=True, ptr=True)
+            unwrite(L, 0, 2, c, 3, bbuf=True)
+    unwrite(L, 1, 2, 8, 1, bbuf=True)
+    unwrite(L, 0, 1, 4, 1, ws=2, sym=True, ptr=True)
+    unwname(L, 2, 4, 1)
+    unwname(L, 2, 8, 1, ws=1, nsoff=True)
+    if not q:
+        unwname(L, 2, 4, 2, ptr=True)
+        unwname(L, 3, 8, 1)
+        unwname(L, 3, 16, 1, ws=1, nsoff=True, ptr=True)
     only = os.environ.get("C07_ONLY")
     if only:
         L = [o for o in L if only in o["id"]]
